@@ -31,6 +31,8 @@ impl<'a, K, T> Iterator for RevisionIterator<'a, K, T> {
     type Item = Vec<(&'a K, &'a T)>;
 
     fn next(&mut self) -> Option<Self::Item> {
+        #[cfg(feature = "verif-hooks")]
+        crate::verif_hooks::step("RevisionIterator::next");
         self.ks
             .iter()
             .zip(self.ls.iter_mut())
